@@ -148,12 +148,15 @@ func (u *Upstream) Close(ctx context.Context, opts ...UpstreamCloseOption) error
 }
 
 func (u *Upstream) closeWithError(ctx context.Context, causeError error, opts ...UpstreamCloseOption) error {
-	return u.closeWithState(ctx, u.State(), causeError, opts...)
+	u.mu.RLock()
+	state, wireConn := u.stateWithoutLock(), u.wireConn
+	u.mu.RUnlock()
+	return u.closeWithState(ctx, state, wireConn, causeError, opts...)
 }
 
-// closeWithState closes the upstream reporting the given state snapshot.
-// The caller takes the snapshot under u.mu (State) or while already holding it (stateWithoutLock).
-func (u *Upstream) closeWithState(ctx context.Context, state *UpstreamState, causeError error, opts ...UpstreamCloseOption) error {
+// closeWithState closes the upstream reporting the given state snapshot over the given wire connection.
+// The caller reads both under u.mu (closeWithError) or while already holding it (flush).
+func (u *Upstream) closeWithState(ctx context.Context, state *UpstreamState, wireConn *wire.ClientConn, causeError error, opts ...UpstreamCloseOption) error {
 	defer u.cancel()
 	if u.isClosed() {
 		return nil
@@ -164,7 +167,7 @@ func (u *Upstream) closeWithState(ctx context.Context, state *UpstreamState, cau
 		v(&opt)
 	}
 
-	resp, err := u.wireConn.SendUpstreamCloseRequest(ctx, &message.UpstreamCloseRequest{
+	resp, err := wireConn.SendUpstreamCloseRequest(ctx, &message.UpstreamCloseRequest{
 		StreamID:            u.ID,
 		TotalDataPoints:     state.TotalDataPoints,
 		FinalSequenceNumber: state.LastIssuedSequenceNumber,
@@ -462,7 +465,7 @@ func (u *Upstream) flush(ctx context.Context) error {
 	}
 
 	if err := u.validateState(); err != nil {
-		u.closeWithState(u.ctx, u.stateWithoutLock(), err)
+		u.closeWithState(u.ctx, u.stateWithoutLock(), u.wireConn, err)
 		return err
 	}
 
@@ -687,13 +690,15 @@ func (u *Upstream) resume(newConn *wire.ClientConn) error {
 	if !u.state.Is(streamStatusResuming) {
 		return fmt.Errorf("invalid state want[%v] but[%v]", streamStatusResuming, u.state.Current())
 	}
+	u.mu.Lock()
 	u.wireConn = newConn
+	u.mu.Unlock()
 
 	var resp *message.UpstreamResumeResponse
 	var resErr error
 
 	retry.Do(func() (end bool) {
-		resp, resErr = u.wireConn.SendUpstreamResumeRequest(u.ctx, &message.UpstreamResumeRequest{
+		resp, resErr = newConn.SendUpstreamResumeRequest(u.ctx, &message.UpstreamResumeRequest{
 			StreamID: u.ID,
 		}, u.Config.QoS)
 		if resErr != nil {
@@ -715,7 +720,7 @@ func (u *Upstream) resume(newConn *wire.ClientConn) error {
 		return errors.Errorf("failed send upstream resume request: %w", resErr)
 	}
 
-	ch, err := u.wireConn.SubscribeUpstreamChunkAck(u.ctx, resp.AssignedStreamIDAlias)
+	ch, err := newConn.SubscribeUpstreamChunkAck(u.ctx, resp.AssignedStreamIDAlias)
 	if err != nil {
 		return errors.Errorf("failed to SubscribeUpstreamChunkAck: %w", err)
 	}
